@@ -58,7 +58,9 @@ def gen_case(ch, params):
     nd = ch.pick((0, 8, 40, 120, 300))
     dec = bytes(ch.below(256) for _ in range(nd)).hex()
     return {'threads': threads, 'addrs': addrs, 'decisions': dec, 'spurious': ch.pick((0, 1, 3)), 'imported': ch.below(4) == 0,
-            'ndebug': ch.below(5) == 0}
+            'ndebug': ch.below(5) == 0,
+            # the runtime's big-endian code paths (forced with -DWASM_ENDIAN=1): the wait protocol reads the cell through them
+            'be': ch.below(5) == 0}
 
 
 def evaluate(case):
@@ -74,6 +76,8 @@ def evaluate(case):
         key = ([l for l in extra.get('stderr', '').splitlines() if 'ERROR' in l or 'runtime error' in l or 'VSCHED' in l or 'Assertion' in l] or [st])[0]
         return ('crash:' + f1.normalize_diag(key), 'harness %s: %s' % (st, extra.get('stderr', '')[-900:])), set()
     bad, classes = sched.check_futex(case, events)
+    if case.get('be') and classes:
+        classes = set(classes) | {'big_endian_runtime_paths'}
     return bad, classes
 
 
